@@ -27,6 +27,8 @@ pub struct Case {
   pub globs: Vec<String>,
   pub specs: Vec<String>,
   pub shuffle_seed: u64,
+  /// a unix socket and a character device are placed in the root directory (they are not regular files: never listed)
+  pub specials: bool,
 }
 
 fn t_json(t: &T) -> Value {
@@ -54,7 +56,7 @@ fn t_from(v: &Value) -> Option<T> {
 
 impl Case {
   fn to_json(&self) -> Value {
-    json!({"root": t_json(&self.root), "ignore": self.ignore, "hidden": self.hidden, "junk": self.junk, "follow": self.follow, "globs": self.globs, "specs": self.specs, "shuffle_seed": self.shuffle_seed})
+    json!({"root": t_json(&self.root), "ignore": self.ignore, "hidden": self.hidden, "junk": self.junk, "follow": self.follow, "globs": self.globs, "specs": self.specs, "shuffle_seed": self.shuffle_seed, "specials": self.specials})
   }
   fn from_json(v: &Value) -> Option<Case> {
     let strs = |k: &str| -> Vec<String> { v.get(k).and_then(|a| a.as_array()).map(|a| a.iter().filter_map(|x| x.as_str().map(|s| s.to_string())).collect()).unwrap_or_default() };
@@ -67,6 +69,7 @@ impl Case {
       globs: strs("globs"),
       specs: strs("specs"),
       shuffle_seed: v.get("shuffle_seed").and_then(|s| s.as_u64()).unwrap_or(0),
+      specials: v.get("specials").and_then(|b| b.as_bool()).unwrap_or(false),
     })
   }
 }
@@ -114,6 +117,7 @@ fn gen(rng: &mut Rng) -> Case {
     globs: (0..ng).map(|_| rng.pick(&globs_pool).to_string()).collect(),
     specs: (0..ns).map(|_| rng.pick(&specs_pool).to_string()).collect(),
     shuffle_seed: rng.next(),
+    specials: rng.chance(1, 4),
   }
 }
 
@@ -308,6 +312,11 @@ fn observe(ctx: &Ctx, c: &Case) -> Obs {
   let mut rng = Rng(c.shuffle_seed);
   let mut link_id = 0;
   build(&sb, "root", &c.root, &mut rng, &mut link_id);
+  let mut _listener = None;
+  if c.specials && matches!(c.root, T::Dir(_)) {
+    _listener = std::os::unix::net::UnixListener::bind(sb.path("root/sock.s")).ok();
+    let _ = std::process::Command::new("mknod").arg(sb.path("root/dev.n")).args(["c", "1", "3"]).status();
+  }
   let mut args: Vec<String> = ["torrent", "create", "--input", "root", "--output", "o.torrent", "--piece-length", "16384"].iter().map(|s| s.to_string()).collect();
   if c.hidden {
     args.push("--include-hidden".into());
@@ -344,7 +353,7 @@ fn observe(ctx: &Ctx, c: &Case) -> Obs {
 
 pub fn run(ctx: &Ctx) -> Report {
   let mut report = Report::new(
-    "sandbox trees built in shuffled creation order: nesting <= 4, hidden files and directories at every depth, junk names and near-misses (case variants, suffixes), file and directory symlinks \
+    "sandbox trees built in shuffled creation order: nesting <= 4, hidden files and directories at every depth, junk names and near-misses (case variants, suffixes), file and directory symlinks, a unix socket and a character device in the root \
      (acyclic, unbroken, also as the root), equal sizes, names where component-wise and string order differ (a/b vs a.b, a b, a-b); all 8 flag combinations, 0-3 globs with `!`, 0-3 sort specs; \
      observable: info.files[].path order and exit status; non-trivial = directory root with >= 2 entries and a glob, sort spec or symlink; distinct by case hash",
   );
